@@ -197,9 +197,20 @@ func ZZ_C07_Panic(entry, on, pval, exmode, pos, q int) {
 // ZZ_C07_TransportFault: the k-th transport Write/Writev or Flush fails in the background sender (queued channel)
 // or in the caller (synchronous channel); a failing Read in the read loop. The channel is closed with that error,
 // no goroutine dies, ownership is released (no closer deadlock).
+//
+//	what: 0 Write/Writev, 1 Flush, 2 Read, 3 Flush under Channel.Write; plus 10 x the class of the error a failing
+//	write reports: 0 non-timeout net.Error, 1 a plain error, 2 a timeout net.Error (the sender closes the channel
+//	whatever the class: a write that failed has lost bytes)
 func ZZ_C07_TransportFault(q, what, k, exmode int) {
 	tr := newZZTransport()
-	fault := &zzNetErr{timeout: false}
+	var fault error = &zzNetErr{timeout: false}
+	switch what / 10 {
+	case 1:
+		fault = zzErrBomb
+	case 2:
+		fault = &zzNetErr{timeout: true}
+	}
+	what %= 10
 	tr.writeErr = fault
 	switch what {
 	case 0:
@@ -247,7 +258,7 @@ func ZZ_C07_TransportFault(q, what, k, exmode int) {
 		vrt.Assert(!dead, "c07-no-thread-left-blocked")
 		vrt.Assert(tr.closes == 1 && !ch.IsActive(), "c07-transport-fault-closes-channel")
 		vrt.Assert(inact.n == 1, "c07-inactive-once")
-		vrt.Assert(errors.Is(inact.ex, fault) || inact.ex == error(fault), "c07-closed-with-the-transport-error")
+		vrt.Assert(errors.Is(inact.ex, fault) || inact.ex == fault, "c07-closed-with-the-transport-error")
 		vrt.Assert(q == 0 || ch.running == idle, "c07-sender-ownership-released")
 		vrt.Reach("c07-fault-closed")
 	} else {
